@@ -1,6 +1,6 @@
 /-!
 Model of the database session life-cycle relevant to C18: `gambit.db.sqla.ReadOnlySession`
-(`flush` is a no-op, `commit` raises) next to the ordinary SQLAlchemy session, as a state machine over
+(`flush` is a no-op, `commit` raises, and so does a commit through the transaction object — the `before_commit` hook added by the repair of finding C18-F1) next to the ordinary SQLAlchemy session, as a state machine over
 (durable rows, rows flushed into the open transaction, pending changes); and the table of file-open
 modes of the read-side commands.  Core Lean only.  SQLite / the filesystem are assumed (DESIGN §3).
 -/
@@ -21,6 +21,8 @@ inductive SOp where
   | change (c : Change)     -- session.add / session.delete / attribute assignment
   | flush
   | commit
+  | txnCommit               -- `session.get_transaction().commit()`: committing through the transaction object
+  | beginBlock              -- `with session.begin(): pass` entered while no transaction is open: leaving the block commits
   | rawSql (c : Change)     -- `session.execute(text("UPDATE …"))`: goes straight into the connection's open transaction
   | query                   -- any query (autoflush first)
   | rollback
@@ -44,6 +46,8 @@ def stepRO (s : Sess) : SOp → Sess × SOut
   | .flush => (s, .ok)                                       -- no-op: pending stays pending
   | .rawSql c => ({ s with txn := s.txn ++ [c] }, .ok)       -- visible to this session only; never committed
   | .commit => (s, .raised)
+  | .txnCommit => (s, .raised)                                  -- `before_commit` raises before anything is done; the transaction stays open
+  | .beginBlock => ({ s with txn := [], pending := [] }, .raised)   -- `before_commit` raises; the block's exit rolls back
   | .query => (s, .rows (applyChanges s.durable s.txn).length)   -- autoflush = no-op flush
   | .rollback => ({ s with txn := [], pending := [] }, .ok)
   | .close => ({ s with txn := [], pending := [] }, .ok)
@@ -54,6 +58,8 @@ def stepRW (s : Sess) : SOp → Sess × SOut
   | .flush => ({ s with txn := s.txn ++ s.pending, pending := [] }, .ok)
   | .rawSql c => ({ s with txn := s.txn ++ [c] }, .ok)
   | .commit => ({ durable := applyChanges s.durable (s.txn ++ s.pending), txn := [], pending := [] }, .ok)
+  | .txnCommit => ({ durable := applyChanges s.durable (s.txn ++ s.pending), txn := [], pending := [] }, .ok)
+  | .beginBlock => ({ durable := applyChanges s.durable (s.txn ++ s.pending), txn := [], pending := [] }, .ok)
   | .query => ({ s with txn := s.txn ++ s.pending, pending := [] }, .rows (applyChanges s.durable (s.txn ++ s.pending)).length)
   | .rollback => ({ s with txn := [], pending := [] }, .ok)
   | .close => ({ s with txn := [], pending := [] }, .ok)
